@@ -175,6 +175,55 @@ def queries(model, uuids: list | None = None, touched: set | None = None, limit:
     return out
 
 
+def expected_uri(plugin, viewpoints: dict) -> str | None:
+    """the namespace URI a plugin must be declared with (own reading of Plugin / version_precision): the plugin name,
+    for versioned plugins followed by the activated viewpoint version with all but the first `version_precision`
+    parts zeroed"""
+    uri = plugin.name.rstrip("/")
+    if plugin.version is None:
+        return uri
+    v = viewpoints.get(plugin.viewpoint)
+    if not v:
+        return None
+    parts = v.split(".")
+    parts = parts[: plugin.version_precision] + ["0"] * (len(parts) - plugin.version_precision)
+    return uri + "/" + ".".join(parts)
+
+
+def check_type_namespaces(model, path: pathlib.Path, out: Outcome, replay: dict, label: str) -> None:
+    """Every written semantic fragment, parsed from its bytes: each prefix used by an xsi:type / xmi:type value must be
+    declared in scope, and for a known plugin with the URI the activated viewpoint version demands."""
+    etree, exs, core = c01.impl()
+    import capellambse._namespaces as _n
+
+    vps = dict(model._loader.referenced_viewpoints())
+    for name in frag_roots(model):
+        if pathlib.PurePosixPath(name).suffix not in core.SEMANTIC_EXTS:
+            continue
+        root = etree.parse(str(path.parent / name)).getroot()
+        for e in root.iter():
+            if not isinstance(e.tag, str):
+                continue
+            for att in ("{%s}type" % c01.XSI, "{%s}type" % c01.XMI):
+                xt = e.get(att)
+                if not xt or ":" not in xt:
+                    continue
+                p = xt.split(":")[0]
+                if p not in e.nsmap:
+                    out.find("MelodyModel.save|type-prefix-undeclared",
+                             f"{label}: {name} uses xsi:type {xt!r} but declares no namespace {p!r} (Capella cannot load this)",
+                             {**replay, "observed": "undeclared:" + p})
+                    return
+                plugin = _n.NAMESPACES_PLUGINS.get(p)
+                want = expected_uri(plugin, vps) if plugin is not None else None
+                if want is not None and e.nsmap[p] != want:
+                    out.find("MelodyModel.save|namespace-uri-mismatch",
+                             f"{label}: {name} declares {p!r} as {e.nsmap[p]!r}, the activated viewpoint demands {want!r}",
+                             {**replay, "observed": "uri:" + p})
+                    return
+    out.hit("type-namespaces-checked")
+
+
 # ------------------------------------------------------------------ edit histories
 
 
@@ -190,13 +239,43 @@ class History:
         self.model_checked: set = set()
 
     def objs(self):
+        """objects of the primary resource (libraries are separate, read-only resources that save() does not write)"""
         if self._objs is None:
-            self._objs = list(self.m.search())
+            ld = self.m._loader
+            self._objs = [o for o in self.m.search() if ld.find_fragment(o._element).parts[0] == "\0"]
         return self._objs
 
     def pick(self, *names):
         cands = [o for o in self.objs() if type(o).__name__ in names]
         return self.rng.choice(cands) if cands else None
+
+    BOUNDARY = [" ", "\xa0", "\n", "\t \r", "]]>", "x]]>y", "a\r\nb", "\u2028", "\x85", "<![CDATA[x]]>", "&amp;", "\"'"]
+
+    def boundary_step(self, i: int):
+        """directed: the i-th boundary string goes into a specification body (if the model has one) and into a name"""
+        s = self.BOUNDARY[i % len(self.BOUNDARY)]
+        owners = []
+        for o in self.objs():
+            try:
+                o.specification  # noqa: B018
+                owners.append(o)
+            except Exception:  # noqa: BLE001
+                pass
+        try:
+            if owners:
+                o = self.rng.choice(owners)
+                o.specification[self.rng.choice(["Python", "LinkedText"])] = s
+                self.touched.add(o.uuid)
+                self.out.hit("op:spec-boundary")
+                self.log.append({"op": "set specification (boundary)", "arg": s})
+            o = self.rng.choice(self.objs())
+            o.name = s
+            self.touched.add(o.uuid)
+            self.out.hit("op:name-boundary")
+            self.log.append({"op": f"set {type(o).__name__}.name (boundary)", "arg": s})
+            self.ok_since_save += 1
+        except Exception as e:  # noqa: BLE001
+            self.out.hit("refused:" + type(e).__name__)
 
     def step(self):
         rng, m = self.rng, self.m
@@ -324,6 +403,7 @@ def save_and_compare(h: History, path: pathlib.Path, capellambse, key, cases: li
         out.find(f"MelodyModel.save|raises|{type(e).__name__}", f"save() after {len(h.log)} API operations raised {type(e).__name__}: {e}", replay)
         return False
     mem = {k: canon(v) for k, v in frag_roots(m).items()}
+    check_type_namespaces(m, path, out, replay, h.label)
     q_mem = queries(m, touched=h.touched)
     out.case(key, {"model": h.label, "ops": len(h.log), "last": last} if len(out.samples) < 4 else None, h.ok_since_save > 0)
     out.traces_validated += 1
@@ -339,14 +419,16 @@ def save_and_compare(h: History, path: pathlib.Path, capellambse, key, cases: li
         d = diff(tree, canon(roots2[name])) if name in roots2 else ("fragment-missing", name)
         if d:
             out.find(f"MelodyModel.save|reload-differs|{d[0]}",
-                     f"{h.label}: after save + reload {name} differs from memory: {d[1]} (last operation: {last})", replay)
+                     f"{h.label}: after save + reload {name} differs from memory: {d[1]} (last operation: {last})",
+                     {**replay, "observed": "tree:" + d[0]})
     q2 = queries(m2, uuids=list(q_mem))
     if q2 != q_mem:
         bad = [(u, k, q_mem[u].get(k), q2.get(u, {}).get(k)) for u in q_mem for k in q_mem[u]
                if q2.get(u, {}).get(k) != q_mem[u].get(k)][:3]
         cls = "spec" if any(b[1] == "spec" for b in bad) else "attribute"
         out.find(f"MelodyModel.save|query-differs|{cls}",
-                 f"{h.label}: an API query answers differently after save + reload: {bad!r}"[:600], replay)
+                 f"{h.label}: an API query answers differently after save + reload: {bad!r}"[:600],
+                 {**replay, "observed": "query:" + cls})
     # ---- model side: every written fragment
     for name, root in frag_roots(m).items():
         p = path.parent / name
@@ -379,7 +461,7 @@ def tree_edit_cases(ctx: Ctx, out: Outcome, cases: list):
     """the model's tree edits against the same edits done with lxml"""
     etree, exs, core = c01.impl()
     rng = ctx.rng
-    for i in range(ctx.pick(150, 1500)):
+    for i in range(ctx.pick(150, 1000)):
         d = {"pre": [], "root": c01.synth(rng), "post": []}
         root = c01.build_doc(etree, d)
         elems = [e for e in root.iter()]
@@ -430,6 +512,13 @@ def tree_edit_cases(ctx: Ctx, out: Outcome, cases: list):
         want = {"doc": c01.export_doc(root, set())}
         want["wf"] = c01.capella_shaped(want["doc"])
         cases.append((req, ("tree_edit:" + op, {"edit": op, "path": path}, want)))
+        # ... and what write_xml makes of the edited tree
+        import io
+
+        buf = io.BytesIO()
+        exs.write(root, buf, line_length=exs.LINE_LENGTH, siblings=True)
+        cases.append(({"op": "xml.write", "kind": "semantic", "doc": want["doc"]},
+                      ("edited.write_xml", {"edit": op, "value": req.get("value")}, {"out": buf.getvalue().decode("utf-8")})))
         out.case(("edit", i), None, True)
         out.hit("tree_edit:" + op)
 
@@ -440,14 +529,14 @@ def tree_edit_cases(ctx: Ctx, out: Outcome, cases: list):
 def models(ctx: Ctx) -> list[tuple[pathlib.Path, int, int]]:
     """(aird, histories, max operations)"""
     data = common.REPO / "tests" / "data"
-    ms = [(data / "writemodel" / "WriteTestModel.aird", ctx.pick(10, 60), 40),
-          (data / "melodymodel" / "5_0" / "Melody Model Test.aird", ctx.pick(1, 5), ctx.pick(12, 30))]
+    ms = [(data / "writemodel" / "WriteTestModel.aird", ctx.pick(10, 24), 40),
+          (data / "melodymodel" / "5_0" / "Melody Model Test.aird", 1, ctx.pick(12, 25))]
     if ctx.thorough:
-        ms += [(data / "melodymodel" / "5_2" / "Melody Model Test.aird", 3, 30),
-               (data / "melodymodel" / "6_0" / "Melody Model Test.aird", 3, 30),
-               (data / "Library Project" / "Library Project.aird", 6, 30),
-               (data / "pvmt" / "PVMTTest.aird", 6, 30),
-               (data / "decl" / "empty_project_52" / "empty_project_52.aird", 6, 30)]
+        ms += [(data / "melodymodel" / "5_2" / "Melody Model Test.aird", 1, 25),
+               (data / "melodymodel" / "6_0" / "Melody Model Test.aird", 1, 25),
+               (data / "Library Project" / "Library Project.aird", 4, 30),
+               (data / "pvmt" / "PVMTTest.aird", 4, 30),
+               (data / "decl" / "empty_project_52" / "empty_project_52.aird", 4, 30)]
     return ms
 
 
@@ -466,6 +555,11 @@ def run(ctx: Ctx) -> Outcome:
                 raise common.InfraError(f"cannot load corpus model {label}: {e!r}") from e
             h = History(ctx, out, m, label)
             saves = 0
+            # directed part: two boundary strings per history, each followed by a save + reload
+            for b in range(2):
+                h.boundary_step(2 * hi + b + ctx.seed)
+                if not save_and_compare(h, path, capellambse, (label, ctx.seed, hi, f"boundary{b}"), cases):
+                    break
             for _ in range(ctx.rng.randint(5, max_ops)):
                 h.step()
                 if ctx.rng.random() < 0.25 and saves < 5:
